@@ -11,7 +11,7 @@ def pty_sessions(ctx):
     model IO/TermIO.v and the frame specification by Corr/C16Pty.v"""
     out = os.path.join(ctx["build"], "cases", "C16-pty" + ("-replay" if ctx.get("replay") else ""))
     os.makedirs(out, exist_ok=True)
-    for f in ("sessions.v", "sessions.json"):
+    for f in ("sessions.v", "sessions.json", "current_session.json"):
         try:
             os.remove(os.path.join(out, f))
         except OSError:
@@ -25,10 +25,20 @@ def pty_sessions(ctx):
         rj = os.path.join(out, "replay_sessions.json")
         json.dump({"sessions": sess}, open(rj, "w"))
         cmd += ["--replay", rj]
-    rc, text = ctx["sh"](cmd, cwd=ctx["root"], timeout=1500)
+    cur = os.path.join(out, "current_session.json")
+    try:
+        rc, text = ctx["sh"](cmd, cwd=ctx["root"], timeout=900)
+    except Exception as e:  # timeout: the terminal object hung (poll never returned, dispose blocked, ...)
+        case = json.load(open(cur)) if os.path.exists(cur) else {}
+        return {"violations": [{"kind": "failing-input", "what": "pty session did not finish: %s" % str(e)[:200],
+                                "case": {"pty_session": case}}], "notes": ["pty16 tool timed out"]}
     violations = []
-    notes = [text.strip().split("\n")[0][:300]]
+    notes = [(text.strip().split("\n") or [""])[-1][:300]]
     meta_path = os.path.join(out, "sessions.json")
+    if not os.path.exists(meta_path) and os.path.exists(cur):
+        # the process died (abort inside the crate) while this session ran: the session is the witness
+        return {"violations": [{"kind": "failing-input", "what": "process aborted while running this pty session (rc=%d): %s" % (rc, text[-300:]),
+                                "case": {"pty_session": json.load(open(cur))}}], "notes": notes}
     if not os.path.exists(meta_path):
         raise RuntimeError("pty16 tool produced nothing (rc=%d): %s" % (rc, text[-1500:]))
     meta = json.load(open(meta_path))
@@ -80,14 +90,33 @@ PROP = {'gen': [],
  'corr_check': 'SNT.Corr.C16Corr.c16_check (model IO/IOQueue.v and specification IO/FifoSpec.v vs surf_n_term::common::IOQueue under '
                'random histories of write/flush/read/consume/consume_with/clear_but_last/read_to_end) and SNT.Corr.C16Pty.pty_check '
                '(model IO/TermIO.v and the frame specification vs surf_n_term::SystemTerminal on a pseudo-terminal)',
- 'level_text': 'wip',
- 'level_note': 'wip',
- 'technique': 'Coq proof (invariant + refinement) + model/implementation correspondence',
+ 'level_text': 'Coq theorems over an executable, line-by-line model of IOQueue (parametric in the byte type) and of the terminal '
+               'object\'s output path (queue + tty under an arbitrary kernel schedule of short writes / EAGAIN): for every history of '
+               'write/flush/read/consume/consume_with/drop/read_to_end calls and every program of write/execute/flush/poll/frames_drop '
+               'under every schedule, no panic (bar usize overflow of a caller-supplied consume amount), representation invariant, '
+               'delivered ++ pending = written minus discarded chunks in order (erasure relation), len() = bytes readable to exhaustion, '
+               'discarded chunks are whole flush-delimited frames none of whose bytes is ever delivered. Models tied to the code by '
+               'histories on the real IOQueue (incl. 64 KiB..1 MiB chunks) and by pty sessions of the real SystemTerminal.',
+ 'level_note': 'Trusted: Coq kernel + vm_compute; hand-written models IO/IOQueue.v, IO/TermIO.v validated by the correspondence runs; '
+               'IO/FifoSpec.v / match_frames as the reading of the property text; kernel behaviour universally quantified, sampled by '
+               'the pty run; fewer than 2^64 bytes per history; tee/tracing outside the model. Two defects fixed (1668a13, 1688aac). '
+               'No axioms (Print Assumptions: closed).',
+ 'technique': 'Coq proof (representation invariant, simulation terminal program -> queue history, erasure relation, parametricity + '
+              'frame-tagged histories) + model/implementation correspondence (random histories, pty sessions)',
  'design_ref': 'DESIGN.md 6.16',
  'n_quick': 1600,
  'n_thorough': 30000,
  'shard': 200,
  'level': 'proof',
  'extra': [pty_sessions],
- 'trusted_base': [KERNEL, HARNESS],
- 'assumptions': []}
+ 'trusted_base': [KERNEL,
+                  'hand-written models IO/IOQueue.v (IOQueue) and IO/TermIO.v (UnixTerminal write/execute/flush/poll write step/frames_drop), '
+                  'tied to the code by the correspondence runs',
+                  'specification IO/FifoSpec.v (byte FIFO with flush marks) and Corr/C16Pty.match_frames, written from the property text',
+                  'primitive 63-bit integers of Coq in the correspondence checks only (big histories, pty sessions)',
+                  HARNESS + '; pty peer thread (harness/src/ptyutil.rs)'],
+ 'assumptions': ['fewer than 2^64 bytes are written in one history (so `length += n` cannot overflow and chunk lengths fit usize)',
+                 'consume amounts passed by callers fit usize when added to the queue size (BufRead contract: amt <= bytes shown); otherwise the '
+                 'only possible panic is the overflow of `offset + amt`',
+                 'the tty accepts a prefix of the slice it is given (write(2) contract); which prefix, and when, is arbitrary',
+                 'a frame is delimited by flush, poll and frames_drop calls']}
